@@ -79,7 +79,8 @@ impl EngineResult {
                         self.coverage.insert(k.clone(), v.clone());
                     }
                     (Some(Value::Number(a)), Value::Number(b)) => {
-                        self.coverage.insert(k.clone(), json!(a.as_u64().unwrap_or(0) + b.as_u64().unwrap_or(0)));
+                        let (x, y) = (a.as_u64().unwrap_or(0), b.as_u64().unwrap_or(0));
+                        self.coverage.insert(k.clone(), json!(if k.starts_with("max_") { x.max(y) } else { x + y }));
                     }
                     (Some(Value::Bool(a)), Value::Bool(b)) => {
                         self.coverage.insert(k.clone(), json!(if k.starts_with("exhaustive") { a && *b } else { a || *b }));
